@@ -5,11 +5,16 @@ CFG = dict(
           "the client-to-server protocol automaton proto_c2s of Model/Protocol.v (one request for a unary call; open, bodies, at most one trailer "
           "with status, at most one reset, reset last; constant id and route), for every stream the client did not itself abort on undecodable "
           "response metadata; C06_client_refuted shows that the exclusion is necessary (trailer after reset; replayed on the real client, finding "
-          "close-after-abort-reset). Server half, partial: C06_server_origin (every envelope the server model writes carries the id and method of an "
-          "envelope it has read, with source and destination exchanged); the per-id acceptance by proto_s2c, trailer presence and reset order of "
-          "the SERVER are checked on the real server by the monitor only. The client model is tied lock-step to the real client on every run (all orders of internal rules) and the "
+          "close-after-abort-reset). Server half on Model/Server.v: C06_server_origin (every envelope the server writes carries the id and method of an envelope it has "
+          "read, source and destination exchanged), C06_server_stream (for a peer that keeps its side for stream id i - no unary-method envelope on "
+          "the id, only the first envelope header-only, constant route: what C06_client gives - the envelopes of id i the server WRITES are accepted "
+          "by proto_s2c: one optional header-only envelope first, bodies, at most one trailer with status, metadata only on the first envelope, only "
+          "resets after the trailer / after a reset; invariant on what is handed to the writer per id + sv's writer accounting + closure of the "
+          "automaton under subsequences), C06_reset_order (no trailer of an id after a reset of it). Not proved, monitor only: the unary response "
+          "shape (needs a hypothesis on unary handler programs) and trailer presence (finding trailer-lost-on-handler-deadline; the model has no "
+          "GRPC-Timeout). The client model is tied lock-step to the real client on every run (all orders of internal rules) and the "
           "automata judge every per-id per-direction projection of every wire history of the rigs (real client, real server, end to end).",
-    props="Props/C06.v", theorems=["C06_client", "C06_client_refuted", "C06_server_origin"],
+    props="Props/C06.v", theorems=["C06_client", "C06_client_refuted", "C06_server_origin", "C06_server_stream", "C06_reset_order"],
     imports=["Model.Client", "Check.ClientC", "Model.Protocol", "Check.CwC", "Check.C06c"],
     case_type="cwcase", find_bad_from="find_bad_from", go_tags="cw",
     rigs=[dict(test="TestC06", timeout_quick=600, timeout_thorough=2400)],
